@@ -17,6 +17,7 @@ func init() {
 }
 
 func runC09(c *an.Ctx) {
+	libFsm3(c)
 	r09a(c)
 	r09b(c)
 	r09c(c)
